@@ -380,6 +380,25 @@ def oracle(plan, res):
                 # the logger tag of interpreter iN is "iN"; children log under "iN+"
                 if in_completion.get(s) and r[6].startswith("x."):
                     logs[s].append(r[6][2:].split(":")[0])
+    # an invoked session that ran is finalised like any other: when its invoker stops it (the parent left the invoking
+    # state, was cancelled, finished or was destroyed) it still makes its finalising step - remaining onexit handlers,
+    # one completion bracket.  By the end of a run every interpreter has been destroyed.
+    if not res.failed_hard() and res.end is not None:
+        ran = {}
+        for r in lines:
+            s = r[SESS]
+            if isinstance(s, str) and s.startswith("c"):
+                kd = r[KIND]
+                if kd == "bms":
+                    ran.setdefault(s, [0, 0])
+                elif kd == "bcp" and s in ran:
+                    ran[s][0] += 1
+                elif kd == "acp" and s in ran:
+                    ran[s][1] += 1
+        for s, (nb, na) in sorted(ran.items()):
+            if nb != 1 or na != 1:
+                v.append(("C10.child-finalised", "invoked session %s ran at least one microstep but had %d completion brackets opened and %d closed by the end of the run (expected exactly one)" % (s, nb, na)))
+                break
     # cancel leads to finished
     if kind in ("api-order", "concurrent") and not res.failed_hard():
         for i, seq in cancel_returned.items():
